@@ -17,10 +17,13 @@ VERIF = os.path.dirname(os.path.dirname(os.path.abspath(__file__)))
 def main():
     src = sys.argv[1]
     rows = []
-    for res in sorted(glob.glob(os.path.join(src, "C??-M?.json"))):
+    for res in sorted(glob.glob(os.path.join(src, "C??-M?.json")) + glob.glob(os.path.join(src, "R2-C??-M?.json"))):
         name = os.path.basename(res)[:-5]
-        prop, k = name.split("-M")
-        d = os.path.join(src, prop, f"MUTANT{k}")
+        wt, k = name.rsplit("-M", 1)
+        prop = wt[-3:]
+        d = os.path.join(src, wt, f"MUTANT{k}")
+        if not os.path.isdir(d):
+            continue
         try:
             r = json.load(open(res))
         except Exception:
